@@ -224,7 +224,17 @@ def _smt(formula):
 
 
 def _query(ctx, formula, extra=()):
-    return ctx._check(z3.Not(formula), *extra, fresh=True)
+    r, m = ctx._check(z3.Not(formula), *extra, fresh=True)
+    if r == "unknown" and getattr(ctx, "qtimeout_ms", None):
+        # an obligation query that timed out is asked once more with three times the budget (solver time depends
+        # on machine load; an `unknown` is only ever reported as inconclusive, never as held)
+        qt = ctx.qtimeout_ms
+        ctx.qtimeout_ms = 3 * qt
+        try:
+            r, m = ctx._check(z3.Not(formula), *extra, fresh=True)
+        finally:
+            ctx.qtimeout_ms = qt
+    return r, m
 
 
 def _hash_ambiguity(ctx):
